@@ -34,7 +34,7 @@ func runC26(c *Ctx) {
 	c.rule(P, "toosmall", "NFS3ERR_TOOSMALL is a reachable status of READDIR and READDIRPLUS", 2)
 	c.rule(P, "floor", "the client's count/maxcount is not silently raised to a floor", 0)
 	c.rule(P, "toosmall-edge", "a NFS3ERR_TOOSMALL reply is reachable from the does-not-fit edge of the loop's stop test", 2)
-	c.rule(P, "entry-size","the stop test's estimate (Len + K + pad4(name)) covers the bytes the loop appends per entry plus the list trailer, minus the status word; sizes from the reply trace", 2)
+	c.rule(P, "entry-size", "the stop test's estimate (Len + K + pad4(name)) covers the bytes the loop appends per entry plus the list trailer, minus the status word; sizes from the reply trace", 2)
 	c.rule(P, "cookie", "entry cookie = index+1; resume skips indices < cookie; eof = !stopped-for-size", 6)
 	runC26OrderPreserved(c)
 	ent, err := p.entrySet()
@@ -44,9 +44,9 @@ func runC26(c *Ctx) {
 	}
 	fl := newFlow(p)
 	for _, spec := range []struct {
-		num    uint32
-		need   int64
-		limit  string
+		num   uint32
+		need  int64
+		limit string
 	}{{16, 288, "count"}, {17, 392, "maxcount"}} {
 		h := ent.Handlers[spec.num]
 		name := procNames[spec.num]
@@ -70,7 +70,9 @@ func runC26(c *Ctx) {
 			if hasOrigin(fl.Origins(bo.X), func(o Origin) bool { return o.Kind == "call" && strings.Contains(o.Desc, "(*bytes.Buffer).Len") }) {
 				stopIf, bound, boundForFloor = ifi, bo.Y, bo.Y
 				// does the compared quantity include the entry's size?
-				if hasOrigin(fl.Origins(bo.X), func(o Origin) bool { return strings.Contains(o.Desc, "path.Base") || strings.Contains(o.Desc, "field:NFSNode.path") }) {
+				if hasOrigin(fl.Origins(bo.X), func(o Origin) bool {
+					return strings.Contains(o.Desc, "path.Base") || strings.Contains(o.Desc, "field:NFSNode.path")
+				}) {
 					bound = nil
 				}
 				// the same question asked of the expression itself (size helpers, named constants)
@@ -378,7 +380,10 @@ func runC27(c *Ctx) {
 		c.undecided(P, "loopback", "sink=none", p.pos(hc.Pos()), "no registry mutation reachable from handleCall")
 	}
 	// dispatch: arms by (version==2 edge, procedure const)
-	type arm struct{ v2 bool; proc int64 }
+	type arm struct {
+		v2   bool
+		proc int64
+	}
 	arms := map[arm]bool{}
 	for _, b := range hc.Blocks {
 		ifi := blockIf(b)
